@@ -512,6 +512,11 @@ func runC16(c *Ctx) {
 					rejects[fmt.Sprintf("length-%d-left-padded", l)] = b2
 				}
 			}
+			for _, l := range []int{255, 256, 511, 512, 513, 1024, 4096, 65536, 1 << 20} {
+				b := make([]byte, l)
+				copy(b, good)
+				rejects[fmt.Sprintf("length-%d-zero-padded", l)] = b
+			}
 			// (r, n-s) is a different, valid signature: must be accepted
 			alt := refcrypto.EncodeRS(cv, sg.r, new(big.Int).Sub(order, sg.s))
 			if e := verify(alt); e != nil {
